@@ -30,7 +30,7 @@ val o_mt : odoc -> str
 
 val o_folder : odoc -> str
 
-type topdoc = { t_root : odoc; t_thumb : str option;
+type topdoc = { t_root : odoc; t_thumb : (str * str) option;
                 t_extras : ((str * str) * str option) list }
 
 type manifest = (str * str) list
